@@ -45,7 +45,7 @@ def showEvent : Event Unit → String
   | .invalid r t p => s!"invalid {showReason r} {hex t} {hex p}"
   | .panic => "panic"
 
-def optHex (s : String) : Option (Option Bytes) :=
+def tpOptHex (s : String) : Option (Option Bytes) :=
   if s = "~" then some none else (unhex s).map some
 
 def parseFlag : String → Option Bool
@@ -58,7 +58,7 @@ def stepTopic : List String → String
     | some s => if validateName s then "ok" else "err"
     | none => "bad-op"
   | ["build", g, n] =>
-    match optHex g, optHex n with
+    match tpOptHex g, tpOptHex n with
     | some g, some n => showCtor (eonBuild g n)
     | _, _ => "bad-op"
   | ["regdev", d] =>
